@@ -9,4 +9,8 @@ def part(test, q_procs, q_checks, t_procs, t_checks, **kw):
 CHECKS = {
     "C01": {"level": "exploration", "scheduled": True,
             "parts": [part("TestC01", 8, 40, 16, 2000)]},
+    "C11": {"level": "exploration",
+            "parts": [part("TestC11Enum", 1, 1, 1, 1), part("TestC11Small", 2, 3000, 6, 200000), part("TestC11Big", 8, 10, 16, 400)]},
+    "C04": {"level": "exploration", "scheduled": True,
+            "parts": [part("TestC04", 8, 30, 16, 1500)]},
 }
